@@ -932,6 +932,14 @@ def call_ext(it, dotted, args, kwargs):
             if isinstance(v, Arr):
                 return ExtRef('numpy.ndarray')
             return Opaque('type(%r)' % (v,))
+        if short == 'property':
+            from .values import PropertyObj
+            names = ['fget', 'fset', 'fdel', 'doc']
+            kw = dict(zip(names, args))
+            kw.update(kwargs)
+            return PropertyObj(kw.get('fget'), kw.get('fset'), kw.get('fdel'))
+        if short == 'vars' and args and isinstance(args[0], Obj):
+            return args[0].attrs
         if short == 'object' and not args:
             return Opaque('object()')       # a sentinel: only its identity matters
         raise Undecidable('builtin %s' % short)
@@ -1071,6 +1079,8 @@ def call_ext(it, dotted, args, kwargs):
         if isinstance(v, (tuple, str, int, Rat)) or v is None:
             return v
         raise Undecidable('copy of %r' % (v,))
+    if short == 'errstate' and mod in ('numpy', 'np'):
+        return Opaque('numpy.errstate')          # floating-point error modes are outside the model (ring arithmetic): the block just runs
     if mod == 'collections' and short == 'deque':
         return list(it.iterate(args[0])) if args else []
     if short == 'isfinite' and mod in ('numpy', 'np', 'math'):
